@@ -331,6 +331,15 @@ func clientSteps() []cstep {
 			c.Modify().AddEntry(t, fluent.NextHopEntry().WithNetworkInstance("DEFAULT").WithIndex(6).WithElectionID(77, 0))
 			return []expOp{{spb.AFTOperation_ADD, &spb.Uint128{Low: 77}, 6}}
 		}},
+		// one call with several entries of which one names its own election id (before / between plain ones)
+		{name: "AddEntry(nh7.WithElectionID(55,0), nh8)", do: func(c *fluent.GRIBIClient, t testing.TB) []expOp {
+			c.Modify().AddEntry(t, fluent.NextHopEntry().WithNetworkInstance("DEFAULT").WithIndex(7).WithElectionID(55, 0), entryNH(8))
+			return []expOp{{spb.AFTOperation_ADD, &spb.Uint128{Low: 55}, 7}, {spb.AFTOperation_ADD, nil, 8}}
+		}},
+		{name: "ReplaceEntry(nh9, nh10.WithElectionID(66,1), nh11)", do: func(c *fluent.GRIBIClient, t testing.TB) []expOp {
+			c.Modify().ReplaceEntry(t, entryNH(9), fluent.NextHopEntry().WithNetworkInstance("DEFAULT").WithIndex(10).WithElectionID(66, 1), entryNH(11))
+			return []expOp{{spb.AFTOperation_REPLACE, nil, 9}, {spb.AFTOperation_REPLACE, &spb.Uint128{Low: 66, High: 1}, 10}, {spb.AFTOperation_REPLACE, nil, 11}}
+		}},
 		{name: "UpdateElectionID(20,0)", elec: &spb.Uint128{Low: 20}, do: func(c *fluent.GRIBIClient, t testing.TB) []expOp {
 			c.Modify().UpdateElectionID(t, 20, 0)
 			return nil
